@@ -1497,4 +1497,93 @@ def r5_14(ctx):
     ctx.floor(n, 1, "separator searches in Text.split")
 
 
-RULES = [r5_0, r5_1, r5_2, r5_3, r5_4, r5_5, r5_6, r5_7, r5_8, r5_9, r5_10, r5_11, r5_12, r5_13, r5_14]
+def r5_15(ctx):
+    ctx.rule("R5.15", "styles travel with appended text (the carrying statements exist): in rich/text.py a method that appends the characters of another Text (`self._text.append(<param>.plain)`) also extends self._spans with spans built from that parameter's `_spans` on every normal path through the append, and adds the parameter's base style as a span when it has one; a method that appends a string together with a style (append(str, style), append_tokens) adds a Span carrying that style under no other condition than `style is not None` / truthiness. Without them the characters arrive and their styles are silently dropped - R5.2 decides WHERE such spans are placed, this rule that they are placed at all")
+    m = ctx.repo.mod(TEXT_MOD)
+    n = 0
+    for f in m.functions.values():
+        if f.cls is None or f.cls.name != "Text" or m.in_main_guard(f.node) or ".<locals>." in f.qualname:
+            continue
+        al = alias_map(f.node)
+        g = None
+        params = set(f.params[1:])
+
+        def calls(attr_chain):
+            out = []
+            for x in walk_local(f.node):
+                if isinstance(x, ast.Call):
+                    fn_ = expand_alias(x.func, al) if isinstance(x.func, ast.Name) else x.func
+                    if norm(fn_) == attr_chain:
+                        out.append(x)
+            return out
+
+        def stmt_of(x):
+            while not isinstance(x, ast.stmt):
+                x = m.parent_of[x]
+            return x
+        frag = calls("self._text.append")
+        if not frag:
+            continue
+        from ..astutil import single_defs as _sdf515
+        sd = _sdf515(f.node)
+        for fa in frag:
+            a0 = fa.args[0] if fa.args else None
+            if a0 is None:
+                continue
+            if g is None:
+                g = cfgmod.build(f.node)
+                dom = g.dominators()
+            fst = stmt_of(fa)
+            fnodes = set(g.nodes_of(fst))
+            ffacts = set()
+            for nid in fnodes:
+                ffacts |= {(norm(t), v) for t, v in g.branch_facts(nid)}
+            where = f"{m.relpath}:{fa.lineno}"
+            if isinstance(a0, ast.Attribute) and a0.attr == "plain" and isinstance(a0.value, ast.Name) and a0.value.id in params:
+                # another Text is appended: its spans must come along
+                src = a0.value.id
+                n += 1
+                ext = []
+                for c in calls("self._spans.extend"):
+                    e = c.args[0] if c.args else None
+                    if isinstance(e, ast.Name) and e.id in sd:
+                        e = sd[e.id]
+                    if e is not None and any(isinstance(y, ast.Attribute) and y.attr == "_spans" and isinstance(y.value, ast.Name) and y.value.id == src for y in ast.walk(e)):
+                        ext.append(c)
+                okx = False
+                for c in ext:
+                    cnodes = set(g.nodes_of(stmt_of(c)))
+                    cf = set()
+                    for nid in cnodes:
+                        cf |= {(norm(t), v) for t, v in g.branch_facts(nid)}
+                    if cf <= ffacts:
+                        okx = True
+                ctx.check(okx, f.fq, short(fst), where, f"the spans of `{src}` are added wherever its characters are",
+                          f"`{short(fst)}` appends the characters of `{src}` but no `self._spans.extend(..)` built from `{src}._spans` runs on the same paths: the appended text arrives without its styles")
+                base = [c for c in calls("self._spans.append") if any(isinstance(y, ast.Attribute) and y.attr == "style" and isinstance(y.value, ast.Name) and y.value.id == src for y in ast.walk(c))]
+                ctx.check(bool(base), f.fq, f"{short(fst)} (base style)", where, f"the base style of `{src}` is added as a span", f"`{short(fst)}`: the base style of `{src}` (`{src}.style`) is not carried over as a span: text appended from a Text with a base style loses it")
+            else:
+                # a plain string: if the method has a style for it, the style must be recorded
+                style_names = [p_ for p_ in ("style",) if p_ in params or any(isinstance(y, ast.Name) and y.id == p_ and isinstance(y.ctx, ast.Store) for y in ast.walk(f.node))]
+                if not style_names:
+                    continue
+                sn = style_names[0]
+                n += 1
+                spans = [c for c in calls("self._spans.append") if c.args and isinstance(c.args[0], ast.Call) and len(c.args[0].args) == 3 and norm(c.args[0].args[2]) == sn]
+                oks = False
+                why = "no span with that style is appended"
+                for c in spans:
+                    cf = set()
+                    for nid in g.nodes_of(stmt_of(c)):
+                        cf |= {(norm(t), v) for t, v in g.branch_facts(nid)}
+                    extra = cf - ffacts
+                    if all(e_ in ((f"{sn} is not None", True), (sn, True), (f"{sn} is None", False), (f"not {sn}", False)) for e_ in extra):
+                        oks = True
+                    else:
+                        why = f"the span is only added under {sorted(t for t, _v in extra)}"
+                ctx.check(oks, f.fq, f"{short(fst)} (style)", where, f"a Span with `{sn}` is added whenever a style is given",
+                          f"`{short(fst)}` appends a string for which a style `{sn}` was given, but {why}: the characters are stored unstyled")
+    ctx.floor(n, 4, "fragment appends with styles to carry in Text")
+
+
+RULES = [r5_0, r5_1, r5_2, r5_3, r5_4, r5_5, r5_6, r5_7, r5_8, r5_9, r5_10, r5_11, r5_12, r5_13, r5_14, r5_15]
